@@ -318,6 +318,10 @@ static void *_GD_Constants(DIRFILE* D, const char* parent,
     _GD_SetError(D, GD_E_BAD_TYPE, GD_E_TYPE_NULL, NULL, return_type, NULL);
     dreturn("%p", NULL);
     return NULL;
+  } else if (_GD_BadType(GD_DIRFILE_STANDARDS_VERSION, return_type)) {
+    _GD_SetError(D, GD_E_BAD_TYPE, 0, NULL, return_type, NULL);
+    dreturn("%p", NULL);
+    return NULL;
   }
 
   if (parent) {
@@ -412,6 +416,14 @@ static gd_carray_t *_GD_Carrays(DIRFILE* D, const char* parent,
   dtrace("%p, \"%s\", 0x%x", D, parent, return_type);
 
   GD_RETURN_IF_INVALID(D, "%p", NULL);
+
+  if (return_type != GD_NULL &&
+      _GD_BadType(GD_DIRFILE_STANDARDS_VERSION, return_type))
+  {
+    _GD_SetError(D, GD_E_BAD_TYPE, 0, NULL, return_type, NULL);
+    dreturn("%p", NULL);
+    return NULL;
+  }
 
   if (parent) {
     P = _GD_FindEntry(D, parent);
